@@ -51,7 +51,8 @@ def gen_case(rng, lay, tier):
         else:
             feed = [ts] if rng.random() < 0.7 else []
             ops.append({"op": "wait", "k": rng.randrange(1, ncons + 1), "feed": feed, "timeout": 0.1})
-    return {"lay": [list(x) for x in lay], "pcob": pcob, "cons": cons, "ops": ops, "nid": rng.choice([4, 1, 127])}
+    return {"lay": [list(x) for x in lay], "pcob": pcob, "cons": cons, "ops": ops, "nid": rng.choice([4, 1, 127]),
+            "via_read": rng.random() < 0.5}
 
 
 def main():
